@@ -28,6 +28,7 @@ type CScenario struct {
 	DoneAt   int      `json:"done_at"`                  // invocation index reporting done; -1 never
 	CancelAt int      `json:"cancel_at"`
 	Deadline bool     `json:"deadline"`
+	Burst    bool     `json:"burst,omitempty"` // all answers are let through at once and the quorum function takes its time: responses queue up behind each other
 
 	acts  []Act
 	codes []codes.Code
@@ -171,6 +172,12 @@ func genCScenario(rng *rand.Rand, n int, variants []string) CScenario {
 	if rng.Intn(5) == 0 {
 		sc.CancelAt = rng.Intn(len(events) + 1)
 		sc.Deadline = rng.Intn(2) == 0
+	}
+	if rng.Intn(5) == 0 {
+		sc.Burst = true
+		if sc.CancelAt >= 0 {
+			sc.CancelAt = len(events) // (a burst has no positions in between)
+		}
 	}
 	sc.Acts = make([]string, n)
 	for i := range sc.acts {
@@ -351,6 +358,9 @@ func (ce *corrEngine) run(sc CScenario, slot int) {
 		smu.Lock()
 		snaps = append(snaps, s)
 		smu.Unlock()
+		if sc.Burst {
+			time.Sleep(200 * time.Microsecond) // further responses queue up meanwhile
+		}
 	}
 	mon.Decide = func(inv *h.Inv) (bool, int) {
 		return sc.DoneAt == inv.Idx, sc.levelAt(inv.Idx)
@@ -442,7 +452,46 @@ func (ce *corrEngine) run(sc CScenario, slot int) {
 	}
 	answered := map[int]bool{}
 	expectInv := 0 // number of successful replies released so far
+	if sc.Burst {
+		// every answer at once
+		racer.burst()
+		for _, i := range sc.Order {
+			p := plans[i]
+			if stream && streamPos[i] < sc.Streams[i] {
+				p.OpenStream(streamPos[i])
+				streamPos[i]++
+				expectInv++
+				continue
+			}
+			p.Open()
+			answered[i] = true
+			if p.Act == ActReply {
+				expectInv++
+			} else {
+				errorsReleased++
+				failedNodes++
+			}
+		}
+		deadline := time.After(e.W)
+	waitBurst:
+		for mon.NumInvs() < expectInv && !isDone() {
+			select {
+			case <-mon.Notify:
+			case <-corr.Done():
+			case <-time.After(2 * time.Millisecond):
+			case <-deadline:
+				break waitBurst
+			}
+		}
+		if errorsReleased > 0 {
+			time.Sleep(5 * time.Millisecond) // failures arrive on their own
+		}
+		R.Count("burst_scenarios", 1)
+	}
 	for pos, i := range sc.Order {
+		if sc.Burst {
+			break
+		}
 		if sc.CancelAt == pos {
 			endCtx()
 			break
@@ -704,8 +753,8 @@ var corrVariants = []string{"Corr", "CorrPN", "CorrCustom", "CorrCombo", "CorrSt
 // RunCorr is the engine behind C11.
 func RunCorr(e *Env) {
 	e.R.Rule = "seeded gated correctable scenarios: variant (8, incl. streams/per-node/custom type) x n x node scripts x interleaved release order of (repeated) replies and failures x level function " +
-		"(monotone, plateaus, jumps, dips, constant) x done position x ctx-end position; snapshots of raw Get, typed Get, Done and Watch(-1..max+1) are taken from inside the next QF invocation (logical time) and after completion; two further goroutines call Watch in bursts of 3000 started just before each reply, error or context end is let through: a channel obtained this way is closed whenever Get shows its level, and after completion; " +
-		"distinct = full scenario; non-trivial = n>=2 or >=2 events"
+		"(monotone, plateaus, jumps, dips, constant) x done position x ctx-end position x {answers let through one at a time, all at once with a quorum function that takes 0.2 ms so that responses queue up}; snapshots of raw Get, typed Get, Done and Watch(-1..max+1) are taken from inside the next QF invocation (logical time) and after completion; two further goroutines call Watch in bursts of 3000 started just before each reply, error or context end is let through: a channel obtained this way is closed whenever Get shows its level, and after completion; " +
+		"directed family: calls whose Done() is asked for the first time only after completion (completion by done / exhaustion / context, known from a Watch channel of an unreachable level); distinct = full scenario; non-trivial = n>=2 or >=2 events"
 	e.R.Assume("a quorum function that reports done reports a level >= every earlier level (scenarios where it does not are still run; only the final-level clause uses the reported level)")
 	e.R.Assume("value on Incomplete / context end is not pinned down by the property; only level, error kind, stability and release of Done/Watch are checked then")
 	g := &gatedEngine{e: e, dir: NewDirector(), clusters: map[int]*h.Cluster{}, refs: map[*h.Cluster]int{}, retired: map[*h.Cluster]bool{}, hangSigs: map[string]bool{}}
@@ -739,4 +788,5 @@ func RunCorr(e *Env) {
 	}
 	close(work)
 	wg.Wait()
+	runCorrLateDone(e)
 }
